@@ -250,6 +250,10 @@ func (fs *Store) VisitMailboxes(f func([]storage.Message) (cont bool)) error {
 	for _, name1 := range names1 {
 		names2, err := readDirNames(fs.mailPath, name1)
 		if err != nil {
+			if os.IsNotExist(err) {
+				// The last mailbox below this directory was removed after we listed it.
+				continue
+			}
 			return err
 		}
 		verifPoint("visit.l2.listed", name1)
@@ -258,6 +262,9 @@ func (fs *Store) VisitMailboxes(f func([]storage.Message) (cont bool)) error {
 		for _, name2 := range names2 {
 			names3, err := readDirNames(fs.mailPath, name1, name2)
 			if err != nil {
+				if os.IsNotExist(err) {
+					continue
+				}
 				return err
 			}
 			verifPoint("visit.l3.listed", name2)
